@@ -104,7 +104,10 @@ class Pages(Files):
                     filepath, stat_result, if_none_match, if_modified_since
                 )(environ, start_response)
             if stat.S_ISDIR(stat_result.st_mode):
-                url = URL(environ=environ)
+                try:
+                    url = URL(environ=environ)
+                except ValueError:  # malformed Host header, non-UTF-8 path or query
+                    raise HTTPException(400, content="Malformed request URL") from None
                 url = url.replace(scheme="", path=url.path + "/")
                 return RedirectResponse(url)(environ, start_response)
 
